@@ -3,6 +3,7 @@ package main
 // Forced schedules on the real condition-variable queues of /repo.
 
 import (
+	"context"
 	"fmt"
 	"runtime"
 	"sort"
@@ -22,6 +23,10 @@ type condQ interface {
 	Frame() string // package path prefix that must appear in a parked consumer's stack
 	// non-blocking calls: result as cOut
 	Call(op int, x int64) cOut
+	// the retrying variant of an add (AddReqAnyway / AddAnyway / AddCtrlAnyway); ok=false: the type has none
+	CallAnyway(op int, x int64) (cOut, bool)
+	// WaitClose(ctx) where the type has it
+	WaitClose(ctx context.Context) (error, bool)
 	Pop(anyway bool) cRes
 	Len() (int, bool)
 	IsClosed() (bool, bool)
@@ -111,7 +116,18 @@ func popRes(v interface{}, err error, closed error) cRes {
 	return cRes{K: 2}
 }
 
+// pause between the attempts of an ...Anyway add
+const anywaySleep = 20 * time.Microsecond
+
 type qQ struct{ q *q.Q }
+
+func (a qQ) CallAnyway(op int, x int64) (cOut, bool) {
+	if op != lAdd {
+		return cOut{}, false
+	}
+	return addOut(a.q.AddReqAnyway(valOf(x), anywaySleep), q.ErrClosed, q.ErrReqQFull), true
+}
+func (a qQ) WaitClose(ctx context.Context) (error, bool) { return nil, false }
 
 func (a qQ) Name() string  { return "q.Q" }
 func (a qQ) Frame() string { return "github.com/pinealctx/neptune/syncx/pipe/q." }
@@ -140,6 +156,14 @@ func (a qQ) IsClosed() (bool, bool) { return false, false }
 
 type asyncQ struct{ q *async.Q }
 
+func (a asyncQ) CallAnyway(op int, x int64) (cOut, bool) {
+	if op != lAdd {
+		return cOut{}, false
+	}
+	return addOut(a.q.AddAnyway(valOf(x), anywaySleep), async.ErrClosed, async.ErrFull), true
+}
+func (a asyncQ) WaitClose(ctx context.Context) (error, bool) { return nil, false }
+
 func (a asyncQ) Name() string  { return "async.Q" }
 func (a asyncQ) Frame() string { return "github.com/pinealctx/neptune/syncx/pipe/async." }
 func (a asyncQ) Call(op int, x int64) cOut {
@@ -166,6 +190,14 @@ func (a asyncQ) Len() (int, bool)       { return 0, false }
 func (a asyncQ) IsClosed() (bool, bool) { return a.q.IsClosed(), true }
 
 type muxQ struct{ q *mux.Q }
+
+func (a muxQ) CallAnyway(op int, x int64) (cOut, bool) {
+	if op != lAdd {
+		return cOut{}, false
+	}
+	return addOut(a.q.AddReqAnyway(valOf(x), anywaySleep), mux.ErrClosed, mux.ErrQFull), true
+}
+func (a muxQ) WaitClose(ctx context.Context) (error, bool) { return a.q.WaitClose(ctx), true }
 
 func (a muxQ) Name() string  { return "mux.Q" }
 func (a muxQ) Frame() string { return "github.com/pinealctx/neptune/syncx/pipe/mux." }
@@ -194,6 +226,17 @@ func (a muxQ) IsClosed() (bool, bool) { return a.q.IsClosed(), true }
 
 type mqQ struct{ q *mq.MQ }
 
+func (a mqQ) CallAnyway(op int, x int64) (cOut, bool) {
+	switch op {
+	case lAdd:
+		return addOut(a.q.AddReqAnyway(valOf(x), anywaySleep), mq.ErrClosed, mq.ErrReqQFull), true
+	case lAddCtrl:
+		return addOut(a.q.AddCtrlAnyway(valOf(x), anywaySleep), mq.ErrClosed, mq.ErrCtrlQFull), true
+	}
+	return cOut{}, false
+}
+func (a mqQ) WaitClose(ctx context.Context) (error, bool) { return a.q.WaitClose(ctx), true }
+
 func (a mqQ) Name() string  { return "mq.MQ" }
 func (a mqQ) Frame() string { return "github.com/pinealctx/neptune/syncx/pipe/mq." }
 func (a mqQ) Call(op int, x int64) cOut {
@@ -211,6 +254,8 @@ func (a mqQ) Call(op int, x int64) cOut {
 		return cOut{}
 	case lTryClose:
 		return cOut{K: 2, B: a.q.TryClose()}
+	case lTryClear:
+		return cOut{K: 2, B: a.q.TryClear()}
 	}
 	panic("mq.MQ: unsupported op")
 }
@@ -226,6 +271,9 @@ func (a mqQ) Len() (int, bool)       { return 0, false }
 func (a mqQ) IsClosed() (bool, bool) { return a.q.IsClosed(), true }
 
 type syncQ struct{ q *syncq.SyncQueue }
+
+func (a syncQ) CallAnyway(op int, x int64) (cOut, bool)         { return cOut{}, false }
+func (a syncQ) WaitClose(ctx context.Context) (error, bool) { return nil, false }
 
 func (a syncQ) Name() string  { return "syncq.SyncQueue" }
 func (a syncQ) Frame() string { return "github.com/pinealctx/neptune/queue/syncq." }
@@ -353,14 +401,39 @@ type condRun struct {
 	cands     []cCand
 	fallback  *cPath
 	consumers map[int]*cConsumer
+	// a goroutine blocked in WaitClose(ctx) for the whole schedule (mux.Q, mq.MQ)
+	wcGid    int64
+	wcDone   chan struct{}
+	wcCancel context.CancelFunc
 }
 
 func newCondRun(typ string, reqmax, ctrlmax, nthr int) *condRun {
 	sc := &cSchedule{Typ: typ, ReqMax: reqmax, CtrlMax: ctrlmax, NThr: nthr}
 	cfg := cCfg{Kind: condKind(typ), ReqMax: reqmax, CtrlMax: ctrlmax, NThr: nthr}
-	return &condRun{sc: sc, qu: newCondQ(typ, reqmax, ctrlmax), cfg: cfg, res: &cRunResult{cfg: cfg},
+	r := &condRun{sc: sc, qu: newCondQ(typ, reqmax, ctrlmax), cfg: cfg, res: &cRunResult{cfg: cfg},
 		cands: []cCand{{s: cInit(cfg)}}, consumers: map[int]*cConsumer{}}
+	if _, ok := r.qu.WaitClose(canceledCtx); ok {
+		ctx, cancel := context.WithCancel(context.Background())
+		r.wcCancel = cancel
+		r.wcDone = make(chan struct{})
+		gidCh := make(chan int64, 1)
+		go func() {
+			gidCh <- curGoid()
+			if err, _ := r.qu.WaitClose(ctx); err == nil {
+				close(r.wcDone) // returned because the queue was closed (not because the context ended)
+			}
+		}()
+		r.wcGid = <-gidCh
+	}
+	return r
 }
+
+// an already cancelled context: WaitClose on it returns at once (used only to ask whether the type has WaitClose)
+var canceledCtx = func() context.Context {
+	ctx, cancel := context.WithCancel(context.Background())
+	cancel()
+	return ctx
+}()
 
 // exec runs one batch and returns the quiescent observation
 func (r *condRun) exec(b cBatch) *cObs {
@@ -398,6 +471,12 @@ func (r *condRun) exec(b cBatch) *cObs {
 								op.Out = cOut{K: 1, Ares: 3}
 							}
 						}()
+						if op.Anyway {
+							if out, ok := qu.CallAnyway(op.Op, op.X); ok {
+								op.Out = out
+								return
+							}
+						}
 						op.Out = qu.Call(op.Op, op.X)
 					}()
 				}
@@ -436,6 +515,23 @@ func (r *condRun) exec(b cBatch) *cObs {
 					parked = append(parked, c.t)
 				} else {
 					pending = append(pending, c.t)
+				}
+			}
+			if r.wcDone != nil {
+				// returned (seen before the snapshot), or positively parked in WaitClose's select
+				wcRet := false
+				select {
+				case <-r.wcDone:
+					wcRet = true
+				default:
+				}
+				if wcRet {
+					ob.HasWC, ob.WC = true, true
+				} else if parkedIn(snap, r.wcGid, "select", ").WaitClose") {
+					ob.HasWC, ob.WC = true, false
+				} else {
+					ob.HasWC = false
+					pending = append(pending, 997)
 				}
 			}
 			if len(pending) == 0 || laneStuck || time.Now().After(deadline) {
@@ -515,6 +611,9 @@ func (r *condRun) exec(b cBatch) *cObs {
 // goroutines leak) and fixes the emitted trace
 func (r *condRun) finish() *cRunResult {
 	res := r.res
+	if r.wcCancel != nil {
+		defer r.wcCancel()
+	}
 	if !res.stuck {
 		guarded(func() {
 			defer func() { recover() }()
